@@ -198,14 +198,17 @@ def check_total(expr, a, b, c, position):
         if str(v) != nodes[0].value:
             return False
     if not has_octal(expr):
-        try:
-            r = calc.eval(expr, dict(env))
-        except calc.ParseError:
-            return True
-        except ZeroDivisionError:
-            return False
-        if not isinstance(r, int):
-            return False
+        # model-time evaluator: the full text and every token prefix of it (premature end of input) must give an
+        # int or calc.ParseError - the only error its callers handle
+        toks = tokenize(expr)
+        for k in range(len(toks), 0, -1):
+            text = ' '.join(toks[:k])
+            try:
+                r = calc.eval(text, dict(env))
+            except calc.ParseError:
+                continue
+            if not isinstance(r, int):
+                return False
     return True
 
 
